@@ -55,6 +55,13 @@ def generate(rng, tier, n):
             present.add(node)
         probes = ["k%d-%d" % (rng.randrange(10 ** 6), i) for i in range(24)]
         cases.append({"replicas": replicas, "custom": custom, "ops": ops, "probes": probes})
+    if tier == "thorough":
+        # statistical clause, as a TEST: fixed membership configurations (murmur3 is deterministic, so the
+        # outcome is too, up to the ~2 % sampling noise of the probe keys); tolerance 50 % of the weight share
+        for weights in ([100, 100, 100, 100], [100, 50, 100, 50], [100, 100, 50], [60, 80, 100, 100, 70], [100, 100]):
+            ops = [{"op": "addw", "node": i, "arg": w} for i, w in enumerate(weights)]
+            probes = ["bal%d-%d" % (rng.randrange(10 ** 9), i) for i in range(6000)]
+            cases.append({"replicas": 100, "custom": True, "ops": ops, "probes": probes, "balance_tol": 50})
     return cases
 
 
@@ -77,7 +84,10 @@ def encode(case, obs):
     vh = [cpair(cnat(int(n)), clist([cN(rank[h]) for h in hs])) for n, hs in sorted(obs["vhash"].items(), key=lambda kv: int(kv[0]))]
     probes = [cpair(cN(rank[p]), cN(i)) for p, i in zip(obs["phash"], obs["ihash"])]
     rows = [clist([copt(None if v < 0 else cnat(v)) for v in row]) for row in obs["results"]]
-    return "mkcase %s %s %s %s %s %s" % (cnat(case["replicas"]), cbool(case["custom"]), clist(ops), clist(vh), clist(probes), clist(rows))
+    if case.get("balance_tol"):
+        # only the final row matters for the balance test; intermediate rows are still checked by spec_rows
+        pass
+    return "mkcase %s %s %s %s %s %s %s" % (cnat(case["replicas"]), cbool(case["custom"]), clist(ops), clist(vh), clist(probes), clist(rows), cnat(case.get("balance_tol", 0)))
 
 
 def nontrivial(case, obs):
@@ -95,6 +105,8 @@ def nontrivial(case, obs):
 
 def bucket(case, obs):
     out = ["ops=%d" % len(case["ops"])]
+    if case.get("balance_tol"):
+        out.append("balance-test")
     for o in case["ops"]:
         out.append("op:" + o["op"])
     allh = []
